@@ -26,6 +26,9 @@ impl View for Blob { type V = Seq<u8>; uninterp spec fn view(&self) -> Seq<u8>; 
 impl Blob {
   #[verifier::external_body]
   pub fn is_empty(&self) -> (r: bool) ensures r == (self@.len() == 0) { unimplemented!() }
+  // Deref<Target = [u8]>::len
+  #[verifier::external_body]
+  pub fn len(&self) -> (r: usize) ensures r == self@.len() { unimplemented!() }
 }
 impl Clone for Blob { #[verifier::external_body] fn clone(&self) -> (r: Blob) ensures r@ == self@ { unimplemented!() } }
 pub uninterp spec fn placeholder(pid: usize) -> Seq<u8>;
